@@ -49,6 +49,7 @@ def delay_with_mapper_(
         ) -> abc.DisposableBase:
             delays = CompositeDisposable()
             at_end = [False]
+            started = [False]
 
             def done():
                 if at_end[0] and delays.length == 0:
@@ -95,11 +96,21 @@ def delay_with_mapper_(
                     on_next, observer.on_error, on_completed, scheduler=scheduler
                 )
 
+            def start_once(_: Any = None) -> None:
+                if not started[0]:
+                    started[0] = True
+                    start()
+
             if not sub_delay:
                 start()
             else:
-                subscription.disposable = sub_delay.subscribe(
-                    lambda _: start(), observer.on_error, start, scheduler=scheduler
+                # a subscription delay that fires from inside subscribe must find
+                # the slot occupied, or its own handle would replace (and release)
+                # the source's subscription afterwards
+                d = SingleAssignmentDisposable()
+                subscription.disposable = d
+                d.disposable = sub_delay.subscribe(
+                    start_once, observer.on_error, start_once, scheduler=scheduler
                 )
 
             return CompositeDisposable(subscription, delays)
